@@ -50,7 +50,7 @@ PLAN = {
     'C04': {
         'bounded': ['layout_values', 'layout_api', 'update_engine'], 'kani': ['k_modifiers_plane', 'k_keycode_to_char'],
         'level': 'proof',
-        'units': ['layout', 'layout_get', 'fixed_pkv_off', 'fixed_session'],
+        'units': ['layout', 'layout_get', 'fixed_pkv_off', 'fixed_session', 'data'],
         'technique': 'Verus: get_char_for_key for all u16 codes vs riti.h-generated table; plane chosen by the AltGr bit only; frame/append postconditions of get_suggestion',
         'claim': 'Proof over all 65536 key codes, all modifier bytes and both number-pad settings that the value handed to the composer is exactly the layout entry the riti.h key name designates (plane from the AltGr bit only, key pad only with the option on, empty/missing entry = nothing), that a key without a value changes no state, and that with all helpers off an idle context holds exactly that value afterwards; Layout::parse and FixedMethod::new are proved to hold, whatever the options are, the whole entry table of the configured layout file (load marker), and every event function leaves the layout untouched.',
         'note': COMMON_TRUST + 'layout_get_value(_numpad) are proved in unit layout_get against the String-keyed view of the real map (entry Key_<name>_<plane> / <name>, empty = none, key pad only with the option on); only std format! + `impl Display for LayoutModifiers` ("Normal" / "AltGr") stay T3, covered by the exhaustive bounded check layout_values; the transcription of riti.h macro names into entry names is hand-written (tools/gen_keytable.py); Config::get_layout and serde_json::from_value are T3 (the file content is the environment\'s); the bounded check update_engine also flips the number-pad option on a live context.',
